@@ -424,8 +424,9 @@ class Unit:
             self._log("R6-receiver", fnkey, n)
             head = head2
         newname = (sp.rename.split("::")[-1] if sp.rename else it.name) + ("__smoke" if smoke else "")
-        if newname != it.name:
-            head = re.sub(r"\bfn\s+" + re.escape(it.name) + r"\b", "fn " + newname, head, count=1)
+        srcname = sp.rename.split("::")[-1] if (sp.slice_from is not None and sp.rename) else it.name
+        if newname != srcname:
+            head = re.sub(r"\bfn\s+" + re.escape(srcname) + r"\b", "fn " + newname, head, count=1)
         # strip visibility qualifiers, force pub
         head = re.sub(r"^\s*(pub(\([^)]*\))?\s+)?", "pub ", head, count=1)
         if arrow >= 0 and sp.ret:
@@ -439,8 +440,8 @@ class Unit:
             head = text[:a_end].rstrip()
             if sp.recv_mut:
                 head = re.sub(r"\(\s*&\s*self\b", "(&mut self", head, count=1)
-            if newname != it.name:
-                head = re.sub(r"\bfn\s+" + re.escape(it.name) + r"\b", "fn " + newname, head, count=1)
+            if newname != srcname:
+                head = re.sub(r"\bfn\s+" + re.escape(srcname) + r"\b", "fn " + newname, head, count=1)
             head = re.sub(r"^\s*(pub(\([^)]*\))?\s+)?", "pub ", head, count=1)
             head = head + f" ({sp.ret}: {rt})" + where
         owner = it.owner if "::" in fnkey else ""
